@@ -19,6 +19,11 @@ theorem SameCap.of_core {s s' : State} (h : s'.core = s.core) : SameCap s s' := 
 theorem sameCap_mergeInto (s : State) (oi : Nat) (o : Obj) (d : J) : SameCap s (mergeInto s oi o d).1 :=
   SameCap.of_core (mergeInto_core s oi o d)
 
+theorem sameCap_trySave (s : State) (o : Obj) : SameCap s (trySave s o).1 := by
+  unfold trySave; split
+  · exact SameCap.refl s
+  · exact ⟨rfl, rfl, rfl⟩
+
 theorem sameCap_flushSer (s : State) (oi : Nat) (o : Obj) (force : Bool) :
     SameCap s (flushSer s oi o force).1 := by
   unfold flushSer
@@ -35,7 +40,10 @@ theorem sameCap_flushSer (s : State) (oi : Nat) (o : Obj) (force : Bool) :
             have h1 : SameCap s s1 := by have := sameCap_mergeInto s oi o e.contents; rwa [hm] at this
             cases err with
             | some er => exact ⟨h1.1, h1.2.1, h1.2.2⟩
-            | none => exact ⟨h1.1, h1.2.1, h1.2.2⟩
+            | none =>
+              simp only
+              have h2 := h1.trans (sameCap_trySave s1 o)
+              exact ⟨h2.1, h2.2.1, h2.2.2⟩
       · exact ⟨rfl, rfl, rfl⟩
   · exact SameCap.refl s
 
@@ -55,10 +63,14 @@ theorem sameCap_flushMem (s : State) (oi : Nat) (o : Obj) (force : Bool) :
         · exact sameCap_mergeInto _ _ _ _
       · exact SameCap.refl s
     | some e =>
+      have h2 := (SameCap.trans (b := s.setObj oi { o with cell := e.cell }) ⟨rfl, rfl, rfl⟩
+        (sameCap_trySave (s.setObj oi { o with cell := e.cell }) { o with cell := e.cell }))
       cases hm : e.modified <;> cases force <;> simp only [hm, Bool.false_eq_true, if_false, if_true]
       all_goals first
         | exact ⟨rfl, rfl, rfl⟩
-        | (split <;> exact ⟨rfl, rfl, rfl⟩)
+        | (split
+           · exact ⟨rfl, rfl, rfl⟩
+           · split <;> exact ⟨h2.1, h2.2.1, h2.2.2⟩)
   · exact ⟨rfl, rfl, rfl⟩
 
 theorem sameCap_flushOne (s : State) (oi : Nat) (force : Bool) : SameCap s (flushOne s oi force).1 := by
